@@ -177,7 +177,7 @@ def body_topology(env):
 
 def instances(tier):
     inst = []
-    lay_q = ['one-a2', 'two-a2-a3', 'three-a2-a3-ur', 'three-a3-dd-u6', 'ring-no-centre']
+    lay_q = ['one-a2', 'two-a2-a3', 'three-a2-a3-ur', 'three-a3-dd-u6', 'ring-no-centre', 'three-a3-b3-a2']
     lay_t = lay_q + ['seven-mixed', 'seven-a2', 'six-hole']
     for l in (lay_q if tier == 'quick' else lay_t):
         inst.append(dict(label='geometry[%s]' % l, body=body_geometry, params={'layout': l}, max_paths=64, max_depth=400, timeout_ms=120000))
